@@ -6,15 +6,18 @@ import native
 CONFIG = dict(
     id="C25",
     level="proof",
-    shims=["dashmap", "once_cell"],
-    inject=[("harness/C25/local.rs", "core/src/coroutine/local.rs", "kani")],
-    kani=[dict(name="c25_map_step", tier="quick"), dict(name="c25_drop_releases_values", tier="quick")],
+    shims=["dashmap", "once_cell", "corosensei"],
+    inject=[("harness/C25/local.rs", "core/src/coroutine/local.rs", "kani"),
+            ("harness/C25/owner.rs", "core/src/coroutine/korosensei.rs", "kani")],
+    kani=[dict(name="c25_map_step", tier="quick"), dict(name="c25_drop_releases_values", tier="quick"),
+          dict(name="c25_three_step_histories", tier="quick", bounded="3 operations after any initial map state, two keys"),
+          dict(name="c25_dropping_the_coroutine_releases_its_locals", tier="quick")],
     functions=["CoroutineLocal::put", "CoroutineLocal::get", "CoroutineLocal::get_mut", "CoroutineLocal::remove",
-               "<CoroutineLocal as Drop>::drop"],
+               "<CoroutineLocal as Drop>::drop", "<Coroutine as Drop>::drop (releases the local storage in every lifecycle state)"],
     assumptions=[
         "dashmap replaced by its sequential map contract (executable specification, <= 3 entries; two keys used)",
         "callers read a key back with the type they stored (the API is unchecked for anything else)",
-        "Coroutine derefs to its CoroutineLocal field and drops it with itself (struct field; read off korosensei.rs)",
+        "Coroutine derefs to its CoroutineLocal field (struct field; read off korosensei.rs); that dropping the coroutine drops the stored values is proved on the real Drop impl with a struct-literal coroutine and the corosensei contract shim (started/done flags arbitrary)",
     ],
     bounds="induction over the map view on two keys: any state x one operation; values are arbitrary u32 identities",
     manifest=dict(
